@@ -26,6 +26,10 @@ const TrunSampleSizePresentFlag uint32 = 0x200
 const TrunSampleFlagsPresentFlag uint32 = 0x400
 const TrunSampleCompositionTimeOffsetPresentFlag uint32 = 0x800
 
+// maxNrSamplesWithoutSampleData - the decoders refuse a trun with more samples than this and no per-sample field
+// (nothing in the box bounds such a count). OptimizeTfhdTrun therefore never produces one.
+const maxNrSamplesWithoutSampleData = 1024
+
 // DecodeTrun - box-specific decode
 func DecodeTrun(hdr BoxHeader, startPos uint64, r io.Reader) (Box, error) {
 	data, err := readBoxBody(r, hdr)
@@ -45,7 +49,7 @@ func DecodeTrun(hdr BoxHeader, startPos uint64, r io.Reader) (Box, error) {
 		return nil, fmt.Errorf("trun: expected size %d, got %d", t.expectedSize(sampleCount), hdr.Size)
 	}
 
-	if sampleCount > 1024 && !t.HasSampleDuration() && !t.HasSampleSize() && !t.HasSampleFlags() && !t.HasSampleCompositionTimeOffset() {
+	if sampleCount > maxNrSamplesWithoutSampleData && !t.HasSampleDuration() && !t.HasSampleSize() && !t.HasSampleFlags() && !t.HasSampleCompositionTimeOffset() {
 		return nil, fmt.Errorf("trun: sampleCount %d is big but no sample data present", sampleCount)
 	}
 
@@ -96,7 +100,7 @@ func DecodeTrunSR(hdr BoxHeader, startPos uint64, sr bits.SliceReader) (Box, err
 		return nil, fmt.Errorf("trun: expected size %d, got %d", t.expectedSize(sampleCount), hdr.Size)
 	}
 
-	if sampleCount > 1024 && !t.HasSampleDuration() && !t.HasSampleSize() && !t.HasSampleFlags() && !t.HasSampleCompositionTimeOffset() {
+	if sampleCount > maxNrSamplesWithoutSampleData && !t.HasSampleDuration() && !t.HasSampleSize() && !t.HasSampleFlags() && !t.HasSampleCompositionTimeOffset() {
 		return nil, fmt.Errorf("trun: sampleCount %d is big but no sample data present", sampleCount)
 	}
 
